@@ -53,6 +53,14 @@ CHECKS = {
              text="5 loop shapes x 27 body shapes x break/continue/labelled x conditions x {3, 100, 10^4} iterations and 1.5e3-6e4 recursion-free generated programs, 5e7+ VM steps monitored per quick run; held on everything observed apart from KF-C07-1 (break/continue with operands pending).",
              note="Trusted: the probe's RunMonitor (updated in the hook callback, same thread as the VM), the guarded step and top-level-statement hooks. Per-statement balance inside value-producing blocks is deliberately not asserted.",
              design="6/C07"),
+ "C13": dict(level="exploration", technique="line oracle over observed runtime errors: programs with random preceding code and exactly one failing single-line construct; RTError.line (probe) and the '[line N]' of the real binary compared with the line the construct is written on",
+             text="39 failing constructs (every operator class, index/key errors, calls, arity, builtins, properties) x 7 contexts (top level, function called from another line, closure, loop, match arm, multi-line literal, filter action) x LF/CRLF x multi-line string literals before; held on everything observed.",
+             note="Trusted: the generator's own line bookkeeping (one line per LF; CRLF is one line end).",
+             design="6/C13"),
+ "C14": dict(level="exploration", technique="online monitors on compiler and VM hooks: emit-intent table vs decoded final code per scope; code-layout walk of every executed ip; exhaustive make/read_operands round trip; limit programs just below/above every encoding limit",
+             text="Round trip over every opcode x operand value (1e6 instructions; Closure's second operand fully enumerated in the thorough tier), 2.5e3-8e4 generated programs with both monitors armed (1e6 emitted instructions and 1e6+ VM steps checked per quick run), ~50 limit programs (constants incl. REPL accumulation, locals, arguments, captured variables, literal sizes, jump distances, globals in the thorough tier); held on everything observed.",
+             note="Trusted: probe monitors (same thread as the code observed), the guarded emit/patch/replace/truncate/scope-done and step hooks; operand widths of the layout monitor are transcribed from the VM, not from DEFINITIONS.",
+             design="6/C14"),
 }
 
 PENDING_REASON = "check not built yet in this session (design in DESIGN.md section 6); not claimed until its monitor runs silently on the unchanged tree"
